@@ -45,6 +45,16 @@ var lsTracked = []lsTrack{
 	{"server", "sessionBroker", "s"}, {"server", "channelBroker", "s"},
 }
 
+// fields holding slices whose ELEMENTS (backing arrays) are tracked as a location of their own, "<Struct>.<field>[]":
+// reads through an alias (a local assigned from X.f[k], or the result of a function that returns such an alias: the
+// array escapes the lock), in-place writes (slices.Delete/DeleteFunc/Insert/..., sort, copy into, x[i] = ..., clear).
+// append(X.f[k], v) only writes beyond the length every existing reader sees and is not an element write.
+// Narrowed to SecureChannel.instances: the server's item tables hand their slices out only after unlinking them.
+var lsElemTracked = map[string]string{"instances": "SecureChannel"}
+
+var lsSliceMutators = map[string]bool{"Delete": true, "DeleteFunc": true, "Insert": true, "Replace": true, "Reverse": true,
+	"Sort": true, "SortFunc": true, "SortStableFunc": true, "Compact": true, "CompactFunc": true}
+
 // caller-holds-lock contracts: function -> locks (field name of the receiver's struct, exclusive?) held on entry
 var lsAnnotations = map[string][]struct {
 	lock string
@@ -67,15 +77,16 @@ var lsContracts []lsContract
 
 type lsSite struct {
 	loc, kind, fn, file string
-	line               int
-	locks              []string // "Struct.lock/X" exclusive, "Struct.lock/S" shared
+	line                int
+	locks               []string // "Struct.lock/X" exclusive, "Struct.lock/S" shared
 }
 
 type lsPkg struct {
-	fset    *token.FileSet
-	structs map[string]map[string]string // struct -> field -> type name (pointer/slice/map stripped to the element ident)
-	embeds  map[string]bool              // struct embeds sync.Mutex / sync.RWMutex
-	tracked map[string]map[string]bool   // field -> structs
+	fset     *token.FileSet
+	structs  map[string]map[string]string // struct -> field -> type name (pointer/slice/map stripped to the element ident)
+	embeds   map[string]bool              // struct embeds sync.Mutex / sync.RWMutex
+	tracked  map[string]map[string]bool   // field -> structs
+	escapers map[string]string            // function name -> element location it returns an alias of
 }
 
 func lsTypeName(e ast.Expr) string {
@@ -165,6 +176,49 @@ func lsGen(repo string) ([]lsSite, error) {
 				return true
 			})
 		}
+		// pass 1: functions that return an alias of a tracked slice
+		p.escapers = map[string]string{}
+		for _, f := range files {
+			for _, dcl := range f.Decls {
+				fd, ok := dcl.(*ast.FuncDecl)
+				if !ok || fd.Body == nil {
+					continue
+				}
+				al := map[string]string{}
+				direct := func(e ast.Expr) string {
+					if ix, ok := e.(*ast.IndexExpr); ok {
+						if sel, ok := ix.X.(*ast.SelectorExpr); ok {
+							if st, ok := lsElemTracked[sel.Sel.Name]; ok && p.tracked[sel.Sel.Name][st] {
+								return st + "." + sel.Sel.Name + "[]"
+							}
+						}
+					}
+					if id, ok := e.(*ast.Ident); ok {
+						return al[id.Name]
+					}
+					return ""
+				}
+				ast.Inspect(fd.Body, func(n ast.Node) bool {
+					switch x := n.(type) {
+					case *ast.AssignStmt:
+						if len(x.Rhs) == 1 {
+							if loc := direct(x.Rhs[0]); loc != "" {
+								if id, ok := x.Lhs[0].(*ast.Ident); ok {
+									al[id.Name] = loc
+								}
+							}
+						}
+					case *ast.ReturnStmt:
+						for _, r := range x.Results {
+							if loc := direct(r); loc != "" {
+								p.escapers[fd.Name.Name] = loc
+							}
+						}
+					}
+					return true
+				})
+			}
+		}
 		for fi, f := range files {
 			for _, dcl := range f.Decls {
 				fd, ok := dcl.(*ast.FuncDecl)
@@ -174,7 +228,7 @@ func lsGen(repo string) ([]lsSite, error) {
 				if strings.HasPrefix(fd.Name.Name, "New") || strings.HasPrefix(fd.Name.Name, "new") {
 					continue // construction phase: the object is not shared yet
 				}
-				w := &lsWalker{p: p, fn: fd.Name.Name, file: names[fi], env: map[string]string{}}
+				w := &lsWalker{p: p, fn: fd.Name.Name, file: names[fi], env: map[string]string{}, alias: map[string]lsAlias{}}
 				recv := ""
 				if fd.Recv != nil && len(fd.Recv.List) == 1 {
 					tn := lsTypeName(fd.Recv.List[0].Type)
@@ -211,13 +265,57 @@ type lsHeld struct {
 	excl       bool
 }
 
+type lsAlias struct{ loc, base string }
+
 type lsWalker struct {
+	alias map[string]lsAlias
 	p     *lsPkg
 	fn    string
 	file  string
 	env   map[string]string
 	sites []lsSite
 	err   error
+}
+
+// elemSource says whether e denotes (an alias of) a tracked slice: X.f[k], an alias variable, or a call of an escaper.
+func (w *lsWalker) elemSource(e ast.Expr) (lsAlias, bool) {
+	switch x := e.(type) {
+	case *ast.Ident:
+		a, ok := w.alias[x.Name]
+		return a, ok
+	case *ast.ParenExpr:
+		return w.elemSource(x.X)
+	case *ast.IndexExpr:
+		if sel, ok := x.X.(*ast.SelectorExpr); ok {
+			if st, ok := lsElemTracked[sel.Sel.Name]; ok && w.p.tracked[sel.Sel.Name][st] {
+				if t := w.typeOf(sel.X); t == st || t == "" {
+					return lsAlias{st + "." + sel.Sel.Name + "[]", lsText(w.p.fset, sel.X)}, true
+				}
+			}
+		}
+	case *ast.CallExpr:
+		if sel, ok := x.Fun.(*ast.SelectorExpr); ok {
+			if loc, ok := w.p.escapers[sel.Sel.Name]; ok {
+				return lsAlias{loc, lsText(w.p.fset, sel.X)}, true
+			}
+		}
+	}
+	return lsAlias{}, false
+}
+
+func (w *lsWalker) elemSite(a lsAlias, pos token.Pos, held []lsHeld, kind string) {
+	var locks []string
+	for _, h := range held {
+		if h.base == a.base {
+			m := "/X"
+			if !h.excl {
+				m = "/S"
+			}
+			locks = append(locks, h.name+m)
+		}
+	}
+	sort.Strings(locks)
+	w.sites = append(w.sites, lsSite{loc: a.loc, kind: kind, fn: w.fn, file: w.file, line: w.p.fset.Position(pos).Line, locks: locks})
 }
 
 // typeOf resolves the struct type name of an expression, "" when unknown.
@@ -321,6 +419,13 @@ func (w *lsWalker) stmt(s ast.Stmt, held []lsHeld) []lsHeld {
 			w.expr(a, held, "R")
 		}
 	case *ast.AssignStmt:
+		if len(x.Rhs) == 1 {
+			if a, ok := w.elemSource(x.Rhs[0]); ok {
+				if id, ok := x.Lhs[0].(*ast.Ident); ok {
+					w.alias[id.Name] = a
+				}
+			}
+		}
 		for _, r := range x.Rhs {
 			w.expr(r, held, "R")
 		}
@@ -361,6 +466,9 @@ func (w *lsWalker) stmt(s ast.Stmt, held []lsHeld) []lsHeld {
 		}
 		w.block(x.Body.List, held)
 	case *ast.RangeStmt:
+		if a, ok := w.elemSource(x.X); ok {
+			w.elemSite(a, x.X.Pos(), held, "R")
+		}
 		w.expr(x.X, held, "R")
 		if id, ok := x.Value.(*ast.Ident); ok && id != nil {
 			if t := w.typeOf(x.X); t != "" {
@@ -479,6 +587,12 @@ func (w *lsWalker) expr(e ast.Expr, held []lsHeld, mode string) {
 		}
 		w.expr(x.X, held, "R")
 	case *ast.IndexExpr:
+		if a, ok := w.elemSource(x.X); ok { // v[i] / X.f[k][i]: an element of the tracked slice
+			w.elemSite(a, x.Pos(), held, mode)
+			w.expr(x.X, held, "R")
+			w.expr(x.Index, held, "R")
+			return
+		}
 		w.expr(x.X, held, mode) // m[k] = v writes m
 		w.expr(x.Index, held, "R")
 	case *ast.StarExpr:
@@ -491,6 +605,23 @@ func (w *lsWalker) expr(e ast.Expr, held []lsHeld, mode string) {
 		w.expr(x.X, held, "R")
 		w.expr(x.Y, held, "R")
 	case *ast.CallExpr:
+		if id, ok := x.Fun.(*ast.Ident); ok && (id.Name == "copy" || id.Name == "clear") && len(x.Args) >= 1 {
+			if a, ok := w.elemSource(x.Args[0]); ok {
+				w.elemSite(a, x.Pos(), held, "W")
+			}
+			if len(x.Args) == 2 {
+				if a, ok := w.elemSource(x.Args[1]); ok {
+					w.elemSite(a, x.Pos(), held, "R")
+				}
+			}
+		}
+		if sel, ok := x.Fun.(*ast.SelectorExpr); ok && len(x.Args) >= 1 {
+			if pk, ok := sel.X.(*ast.Ident); ok && ((pk.Name == "slices" && lsSliceMutators[sel.Sel.Name]) || (pk.Name == "sort" && strings.HasPrefix(sel.Sel.Name, "S"))) {
+				if a, ok := w.elemSource(x.Args[0]); ok {
+					w.elemSite(a, x.Pos(), held, "W")
+				}
+			}
+		}
 		if id, ok := x.Fun.(*ast.Ident); ok && id.Name == "delete" && len(x.Args) == 2 {
 			w.expr(x.Args[0], held, "W")
 			w.expr(x.Args[1], held, "R")
